@@ -102,6 +102,9 @@ structure St where
   broken : Bool := false      -- Start spawned although an old dispatcher / channel content existed
   starts : Nat := 0
   sdcalls : Nat := 0
+  sent : Nat := 0             -- shutdown signals sent by the current generation's Shutdown
+  bcastPending : Bool := false  -- a Shutdown switched the pool off and has not yet broadcast `elementAdded`
+  startRace : Bool := false   -- a Start took the lock of a stopped pool whose previous shutdown was not complete
   log : List Ev := []
   mon : Option Mon := some Mon.init
 
@@ -237,7 +240,7 @@ structure Client where
 /-- `Start`'s spawn under the pool write lock. -/
 def spawn (p : Params) (s : St) : St :=
   { s with running := true, closed := false, disp := .loop, workers := List.replicate p.W .sel,
-           starts := s.starts + 1,
+           starts := s.starts + 1, sent := 0,
            broken := s.broken || s.disp != .none || !(chanIds s).isEmpty }
 
 def clientStep (p : Params) (s : St) (c : Client) : List (St × Client) :=
@@ -254,12 +257,14 @@ def clientStep (p : Params) (s : St) (c : Client) : List (St × Client) :=
   | .sd1 =>
     if s.writer then []
     else if s.running then
-      [({ s with writer := true, running := false, raced := s.raced || decide (0 < s.inWindow) }, ⟨.sdSend 0, c.script⟩)]
+      [({ s with writer := true, running := false, raced := s.raced || decide (0 < s.inWindow),
+                 sent := 0, bcastPending := true }, ⟨.sdSend 0, c.script⟩)]
     else [({ s with writer := true }, ⟨.sdUnlock, c.script⟩)]
   | .sdSend j =>
-    if j < p.W then (if s.sig < p.W then [({ s with sig := s.sig + 1 }, ⟨.sdSend (j + 1), c.script⟩)] else [])
+    if j < p.W then (if s.sig < p.W then [({ s with sig := s.sig + 1, sent := s.sent + 1 }, ⟨.sdSend (j + 1), c.script⟩)] else [])
     else [(s, ⟨.sdBcast, c.script⟩)]
-  | .sdBcast => [({ s with dwait := false, lost := s.lost || s.disp == .gap }, ⟨.sdUnlock, c.script⟩)]
+  | .sdBcast =>
+    [({ s with dwait := false, lost := s.lost || s.disp == .gap, bcastPending := false }, ⟨.sdUnlock, c.script⟩)]
   | .sdUnlock => [(emit p .sdret { s with writer := false }, ⟨.idle, c.script⟩)]
   | .st0 =>
     if p.oldStart then [(s, ⟨.stLock, c.script⟩)]
@@ -267,7 +272,9 @@ def clientStep (p : Params) (s : St) (c : Client) : List (St × Client) :=
     else [(s, ⟨if s.running then .stLock else .stWait1, c.script⟩)]
   | .stWait1 => if wg s = 0 then [(s, ⟨.stLock, c.script⟩)] else []
   | .stLock =>
-    if s.writer then [] else [({ s with writer := true }, ⟨if s.running then .stUnlock else .stWait2, c.script⟩)]
+    if s.writer then []
+    else [({ s with writer := true, startRace := s.startRace || (!s.running && decide (0 < wg s)) },
+           ⟨if s.running then .stUnlock else .stWait2, c.script⟩)]
   | .stWait2 => if wg s = 0 then [(spawn p s, ⟨.stUnlock, c.script⟩)] else []
   | .stUnlock => [(emit p .startret { s with writer := false }, ⟨.idle, c.script⟩)]
   | .wc => if wg s = 0 then [(emit p .complete s, ⟨.idle, c.script⟩)] else []
